@@ -14,7 +14,9 @@ TIE = ('hand-written executable Lean model of calc_system_head / update_slurries
 TECHNIQUE = 'Lean 4 proof over an executable model of the accumulation loop + bit-exact correspondence; property oracle with independent per-diameter slurries'
 PROVED = ['closed form of all four heads (sum of friction*length, fittings, lifts of positive-length sections, suction submergence of a zero-length entrance, exit velocity head; pump heads summed)',
           'invariance under any permutation of the interior sections and under splitting a positive-length section (all reals)',
-          'after the concentration or the slurry is replaced every pipe diameter maps to the new parameters at that diameter and every pump points at the pipeline slurry']
+          'after the concentration or the slurry is replaced every pipe diameter maps to the new parameters at that diameter and every pump points at the pipeline slurry',
+          'the binding step of calc_system_head: afterwards every pump in the line holds the pipeline slurry whatever it held before (pump objects shared with a second pipeline), '
+          'nothing else changes, idempotent (C09_calc_binds_pumps; the Spec is run beside the implementation)']
 HYPOTHESES = []
 MONITORED = ['floating-point re-association under split / permutation (measured against 1e-9 relative)',
              'that the per-diameter copy really behaves like a fresh slurry at that diameter (composition with C07; compared on every pipeline)']
@@ -86,11 +88,33 @@ def correspondence(ctx):
             got = f'raised {type(e).__name__}'
         lines.append(f'spec.updslur {code[d0]} ' + ' '.join(f'P {code[s_.diameter]}' if isinstance(s_, Pipe) else 'U' for s_ in pl.pipesections))
         metas.append((G.describe(pl), d0, got))
+    # the binding step of calc_system_head against Spec.Pipe.bindPumps (the model C09_calc_binds_pumps is about): the pump objects of this pipeline are first
+    # made part of a second pipeline with another slurry (so they hold THAT slurry), then this pipeline is evaluated - every pump must hold this pipeline's
+    # slurry afterwards, and the section list is as long as before
+    from DHLLDV.PipeObj import Pipeline
+    for _ in range(ctx.n(25, 800)):
+        pl = G.random_pipeline(ctx.rng, n_pumps=ctx.rng.randint(1, 3), vary_speed=True)
+        pumps_ = [s_ for s_ in pl.pipesections if not isinstance(s_, Pipe)]
+        dias = [s_.diameter for s_ in pl.pipesections if isinstance(s_, Pipe)]
+        code = {d: i + 1 for i, d in enumerate(sorted(set(dias + [pl.slurry.Dp])))}
+        try:
+            p2_ = dict(pl.slurry._params, Cv=0.03 if pl.slurry.Cv > 0.2 else 0.4, Dp=dias[-1])
+            other = Pipeline(name='second line', pipe_list=[Pipe('Entrance', dias[-1], 0.0, 0.5, -3.0)] + pumps_ + [Pipe('discharge', dias[-1], 300.0, 1.0, 1.0)],
+                             slurry=E.make_slurry(p2_, max_index=100))
+            held_other = all(q_.slurry is other.slurry for q_ in pumps_)
+            pl.calc_system_head(G.flows_for(ctx.rng, pl, 1)[0])
+            got = ' '.join([f'{1 if q_.slurry is pl.slurry else 0}:{code.get(q_.slurry.Dp, 0)}' for q_ in pumps_] + ['|', str(len(pl.pipesections))])
+            if not held_other:
+                got = 'the second pipeline did not take the pumps over: ' + got
+        except Exception as e:   # noqa
+            got = f'raised {type(e).__name__}'
+        lines.append(f'spec.bindpumps {code[pl.slurry.Dp]} ' + ' '.join(f'P {code[s_.diameter]}' if isinstance(s_, Pipe) else 'U' for s_ in pl.pipesections))
+        metas.append((dict(G.describe(pl), history='the pump objects were first made part of a second pipeline with another slurry; then calc_system_head of this one'), pl.slurry.Dp, got))
     outs = run_model(lines)
     for (desc, d0, got), o in zip(metas, outs):
         ctx.count('corr_compared')
         if o.strip() != got.strip():
-            ctx.mismatch('Spec.Pipe.updateSlurries differs from Pipeline.update_slurries (main diameter | diameter:parameters:Dp of every copy | slurry of every pump)',
+            ctx.mismatch('Spec.Pipe.updateSlurries / bindPumps differs from Pipeline.update_slurries / the binding step of calc_system_head (main diameter | diameter:parameters:Dp of every copy | slurry of every pump)',
                          {'pipeline': desc, 'slurry_Dp_before': d0}, o, got)
 
 
